@@ -46,6 +46,7 @@ func main() {
 
 	st := stats{Rewrites: map[string]int{}}
 	replace := map[string]string{}
+	raceReplace := map[string]string{}
 	if err := os.RemoveAll(*out); err != nil {
 		die(err)
 	}
@@ -62,13 +63,22 @@ func main() {
 			}
 			src := filepath.Join(dir, n)
 			dst := filepath.Join(*out, p, n)
-			changed, err := rewrite(src, dst, &st)
+			changed, err := rewrite(src, dst, &st, true)
 			if err != nil {
 				die(fmt.Errorf("%s: %w", src, err))
 			}
 			if changed {
 				replace[src] = dst
 				st.Instrumented = append(st.Instrumented, filepath.Join(p, n))
+			}
+			// race flavour: clock and socket seams only, real sync/atomic
+			var st2 stats
+			st2.Rewrites = map[string]int{}
+			rdst := filepath.Join(*out, "race", p, n)
+			if ch, err := rewrite(src, rdst, &st2, false); err != nil {
+				die(fmt.Errorf("%s: %w", src, err))
+			} else if ch {
+				raceReplace[src] = rdst
 			}
 			st.Files++
 		}
@@ -116,6 +126,9 @@ func main() {
 	if err := os.WriteFile(filepath.Join(*out, "overlay.json"), b, 0o644); err != nil {
 		die(err)
 	}
+	for k, v := range raceReplace {
+		shimOnly[k] = v
+	}
 	sb2, _ := json.MarshalIndent(struct{ Replace map[string]string }{shimOnly}, "", " ")
 	if err := os.WriteFile(filepath.Join(*out, "overlay-shims.json"), sb2, 0o644); err != nil {
 		die(err)
@@ -131,7 +144,7 @@ func die(err error) {
 	os.Exit(2)
 }
 
-func rewrite(src, dst string, st *stats) (bool, error) {
+func rewrite(src, dst string, st *stats, withSync bool) (bool, error) {
 	fset := token.NewFileSet()
 	f, err := parser.ParseFile(fset, src, nil, parser.ParseComments)
 	if err != nil {
@@ -141,6 +154,9 @@ func rewrite(src, dst string, st *stats) (bool, error) {
 	timeName, sysName := "", ""
 	for _, imp := range f.Imports {
 		path, _ := strconv.Unquote(imp.Path.Value)
+		if !withSync && (path == "sync" || path == "sync/atomic") {
+			continue
+		}
 		switch path {
 		case "sync":
 			if imp.Name == nil {
